@@ -7,7 +7,7 @@ import os
 import zlib
 
 from mc import recs, refcodec
-from mc.faults import FaultyFile, drain
+from mc.faults import DuckFile, FaultyFile, drain
 from mc.obs import obs_list
 from mc.recs import rs
 from mc.report import Run, jhash
@@ -42,6 +42,8 @@ def stream_specs(tier):
         "empty": [],
         # one frame larger than 64 KiB and larger than the whole compressed file
         "bigframe": [A, rs("l/huge", [["string", "s"], ["varint", "i"]], ["S('x', 70000)", "7"]), C],
+        # one frame beyond 16 MiB (string, bytes) and one list of 140 000 elements: size classes of a decoder's limits
+        "hugeframe": [A, rs("l/huge", [["bytes", "raw"], ["varint", "i"]], ["S(b'\\xab', 17 * 1024 * 1024)", "7"]), rs("l/many", [["varint[]", "xs"]], ["list(range(140000))"]), C],
     }
 
 
@@ -186,7 +188,7 @@ def run_wfault(case, s, h):
     from flow.record import RecordStreamWriter
     from flow.record.adapter.stream import StreamWriter
 
-    dev = FaultyFile(case["i"], case["k"], case["mode"])
+    dev = (DuckFile if case.get("dev") == "duck" else FaultyFile)(case["i"], case["k"], case["mode"])
     records = [recs.build_record(r) for r in s["specs"]]
     gzf = None
     w = None
@@ -301,6 +303,11 @@ def cases(tier):
         yield {"kind": "cut", "stream": "bigframe", "c": c}
     for c in range(len(s["gz"]) + 1):
         yield {"kind": "cut", "stream": "bigframe", "gz": True, "c": c}
+    s = build_stream("hugeframe")
+    ends = [0] + [e for e, _ in s["frames"]]
+    for c in sorted({e for e in ends if e > 0} | {ends[-1] - 1, len(s["raw"]) // 2}):
+        yield {"kind": "cut", "stream": "hugeframe", "c": c}
+    yield {"kind": "cut", "stream": "hugeframe", "gz": True, "c": len(s["gz"])}
     for name in names:
         s = build_stream(name)
         for c in range(len(s["raw"]) + 1):
@@ -319,6 +326,8 @@ def cases(tier):
                     for mode in ("raise", "short"):
                         if writer == "gzip" and mode == "short":
                             continue  # GzipFile over a raw device: io semantics undefined for short raw writes
+                        if writer == "low" and mode == "short":
+                            yield {"kind": "wfault", "stream": name, "writer": writer, "i": i, "k": k, "mode": mode, "after": "close", "dev": "duck"}
                         for after in ("crash", "close"):
                             if writer == "gzip" and after == "close":
                                 # closing a GzipFile whose sink failed re-runs its internal buffer through the compressor (CPython's
@@ -328,6 +337,8 @@ def cases(tier):
             if writer != "gzip":
                 for k in (1, 2, 3, 5, 7, 64):
                     yield {"kind": "wfault", "stream": name, "writer": writer, "i": 0, "k": k, "mode": "chunked", "after": "close"}
+                    if writer == "low":
+                        yield {"kind": "wfault", "stream": name, "writer": writer, "i": 0, "k": k, "mode": "chunked", "after": "close", "dev": "duck"}
             # fault-free baseline (deviation bound 0)
             yield {"kind": "wfault", "stream": name, "writer": writer, "i": None, "k": 0, "mode": "raise", "after": "close"}
 
@@ -338,7 +349,7 @@ def main(tier, seed, workers=None):
     run.assumptions = ["gzip completeness is judged against zlib.decompressobj on the truncated bytes",
                        "one fault per execution (deviation bound 1); after a raised fault the caller stops or closes (GzipFile sinks: stops only - what gzip writes when it is closed after its sink failed is CPython's)",
                        "raw cuts of the 70 kB frame are taken near frame boundaries and at every 251st byte of the payload interior, not at every byte"]
-    for n in ("small", "nested", "long", "empty", "zero", "bigframe"):
+    for n in ("small", "nested", "long", "empty", "zero", "bigframe", "hugeframe"):
         build_stream(n)
     explore(run, cases(tier), run_case, workers)
     run.extra["streams"] = {n: {"raw_len": len(s["raw"]), "gz_len": len(s["gz"]), "frames": len(s["frames"])} for n, s in _STREAMS.items()}
